@@ -443,6 +443,63 @@ def repeated_exponent_shell(rng, l, sph=False, nseg=1):
     return ShellSpec(l, c, [e1, e1, e2], co, sph=sph)
 
 
+def symmetric_molecule_family(rng, sph=None):
+    """(label, specs): symmetric arrangements — identical shell definitions (the same exponents and coefficients) at the same
+    distance from a p / d shell but in different directions (water-like, linear B-A-B, a square); random centres never give two
+    equal distances"""
+    out = []
+    for lab, pos in (("water-like", [(1.43, 1.11, 0.0), (-1.43, 1.11, 0.0)]), ("linear B-A-B", [(0.0, 0.0, 1.6), (0.0, 0.0, -1.6)]),
+                     ("square", [(1.2, 1.2, 0.0), (-1.2, 1.2, 0.0), (-1.2, -1.2, 0.0), (1.2, -1.2, 0.0)])):
+        lc = rng.randint(1, 2)
+        centre = rand_shell(rng, lc, [], nprim=2, nseg=1, sph=sph, exp_lo=0.3, exp_hi=8.0).copy(center=[0.0, 0.0, 0.0], via_update=False)
+        lig = rand_shell(rng, rng.randint(0, 1), [], nprim=1 if lab == "linear B-A-B" else 2, nseg=1, sph=sph, exp_lo=0.3, exp_hi=5.0).copy(via_update=False)
+        if lab == "linear B-A-B":
+            lig = lig.copy(l=1)      # (s_A s_A | p_C s_D)-type quartets need a p function on the outer atoms
+        specs = [centre] + [lig.copy(center=[float(v) for v in c]) for c in (pos if lab != "square" else pos[: 2 + rng.randint(0, 1) * 2])]
+        if lab == "linear B-A-B":
+            # outer atoms with the same single exponent but different angular momentum (p and s): the product centre of the outer
+            # pair falls exactly on the central atom, and integrals odd along the axis do not vanish
+            specs[2] = specs[2].copy(l=0)
+            specs[0] = specs[0].copy(l=rng.choice([0, 2]))
+        out.append(("symmetric arrangement (%s)" % lab, specs))
+    return out
+
+
+def structured_coefficient_shell(rng, l, kind, sph=False):
+    """generalized shells whose coefficient matrix has special structure: 'permutation' (square, one non-zero per column, not
+    diagonal: an uncontracted set listed in another order), 'shared-primitive' (two columns that use the same single primitive),
+    'diagonal' (uncontracted), 'triangular'"""
+    k = 3 if kind in ("permutation", "diagonal", "triangular") else 2
+    exps = []
+    while len(exps) < k:
+        e = core.rand_exp(rng, 0.1, min(core.exp_cap(l), 15.0))
+        if all(abs(e - x) > 0.1 * x for x in exps):
+            exps.append(e)
+    c = lambda: core.rand_coeff(rng)
+    if kind == "permutation":
+        co = np.array([[0.0, c(), 0.0], [0.0, 0.0, c()], [c(), 0.0, 0.0]])
+    elif kind == "diagonal":
+        co = np.diag([c(), c(), c()])
+    elif kind == "triangular":
+        co = np.array([[c(), c(), c()], [0.0, c(), c()], [0.0, 0.0, c()]])
+    else:
+        co = np.array([[c(), c()], [0.0, 0.0]])
+    cen = [core.snap(rng.uniform(-1, 1), 8) for _ in range(3)]
+    return ShellSpec(l, cen, exps, co, sph=sph)
+
+
+def three_function_bases(rng):
+    """(label, specs): bases with exactly three basis functions — as many as a vector operator has components, so that a
+    transformation applied to the wrong axis still has a matching shape"""
+    cs = []
+    p = rand_shell(rng, 1, cs, nprim=2, nseg=1, exp_hi=10.0).copy(via_update=False)
+    three_s = [rand_shell(rng, 0, [], nprim=1 + k % 2, nseg=1, exp_hi=10.0).copy(
+        center=[core.snap(rng.uniform(-1.5, 1.5), 8) for _ in range(3)], via_update=False) for k in range(3)]
+    s3 = rand_shell(rng, 0, [], nprim=3, nseg=3, exp_hi=10.0).copy(via_update=False)
+    return [("three basis functions (one p shell)", [p.copy(sph=False)]), ("three basis functions (one pure p shell)", [p.copy(sph=True)]),
+            ("three basis functions (three s shells)", three_s), ("three basis functions (one s shell with three columns)", [s3])]
+
+
 def structural_families(run, transforms=True, lmax_twins=3, lmax_obj=2, ls_extreme=None, small=False):
     """(label, specs, transform | None): bases with special *structure* (not special numbers) that every array-valued function must
     treat like any other basis: a shell object listed twice, twin shells (same centre, l and number of segments), generalized shells
@@ -470,6 +527,28 @@ def structural_families(run, transforms=True, lmax_twins=3, lmax_obj=2, ls_extre
         out.append(("contraction with a repeated exponent",
                      [repeated_exponent_shell(rng, l, sph=bool((k + 1) % 2), nseg=1 + k % 2),
                       rand_shell(rng, (l + 1) % (2 if small else 3), [], nprim=2, nseg=1, exp_hi=10.0)], None))
+    for lab, specs in symmetric_molecule_family(rng):
+        if small:
+            specs = specs[:3]
+        out.append((lab, specs, None))
+    for k, kind in enumerate(("permutation", "shared-primitive", "diagonal", "triangular")):
+        for l in ((k % 2,) if (quick or small) else (0, 1, 2)):
+            sh = structured_coefficient_shell(rng, l, kind, sph=bool((k + l) % 2))
+            if small:
+                sh = sh.copy(coeffs=sh.coeffs[:, :2].copy())
+            other = rand_shell(rng, (l + 1) % 2, [], nprim=2, nseg=1, exp_hi=10.0)
+            out.append(("coefficient matrix of %s type" % kind, [sh, other], None))
+    # coinciding sizes: as many segmented contractions as (Cartesian) components, as many primitives as segments
+    for k, (l, sph_) in enumerate(((1, False), (1, True), (0, False)) if not small else ((1, False),)):
+        m = (l + 1) * (l + 2) // 2
+        sh = rand_shell(rng, l, [], nprim=m, nseg=m, sph=sph_, exp_hi=10.0).copy(via_update=False)
+        other = rand_shell(rng, (l + 1) % 2, [], nprim=2, nseg=1 + k % 2, exp_hi=10.0)
+        out.append(("as many segmented contractions as Cartesian components (l=%d, M=%d)" % (l, m), [sh, other], None))
+    if transforms:
+        for lab, specs in three_function_bases(rng):
+            t3 = np.array([[core.snap(rng.uniform(-1, 1), 10) for _ in range(3)] for _ in range(3)])
+            out.append((lab + ", 3x3 transformation", specs, t3))
+            out.append((lab + ", 2x3 transformation", specs, t3[:2]))
     if transforms:
         specs = random_basis(rng, 2, 2, lmax=1 if quick else 2, exp_hi=10.0)
         n = sum(s.size for s in specs)
